@@ -4,6 +4,7 @@ Correspondence: what the real decoded event object reports (short_address,
 instance_number, device_group, instance_group, instance_type, event data) vs
 the Lean model's observation; oracle: vs `Spec.expectedObs` (Table 3 of part
 103 + parts 301/303/304), plus retry_decode and the mapper's add/get."""
+from common import exc_name  # noqa: E402
 import types
 from props import cmdcommon as cc
 
@@ -63,7 +64,7 @@ def _obs_job(job):
             c = command.from_frame(ForwardFrame(24, d), dev_inst_map=mp)
             impl.append(obs_of(c))
         except Exception as e:  # noqa
-            impl.append("RAISED " + type(e).__name__)
+            impl.append("RAISED " + exc_name(e))
         lines.append("obs %d 0 %s" % (d, cc.map_tok(m)))
     ans = cc.run_model("m_cmd", lines + ["spec " + l for l in lines])
     n = len(lines)
@@ -268,7 +269,7 @@ def replay(ctx, payload):
         try:
             impl = obs_of(command.from_frame(ForwardFrame(24, d), dev_inst_map=None if m is None else DeviceInstanceTypeMapper(m)))
         except Exception as e:  # noqa
-            impl = "RAISED " + type(e).__name__
+            impl = "RAISED " + exc_name(e)
         spec = cc.run_model("m_cmd", ["spec " + " ".join(p)])[0]
         print("input:", " ".join(p), "\nimplementation:", impl, "\nstandard:      ", spec)
         return impl != spec
